@@ -45,6 +45,8 @@ def describe(e):
         return f"range constraint assembled by an attacker ({e['case']}): verdict {e['verdict']}, relations {e['atoms']}, linked value in range: {e['linked_value_in_range']}"
     if ev == "rangeparams":
         return f"range parameters ({e['case']}): validate() ok = {e['validate_ok']}, all 128 signatures valid (independent) = {e['all_signatures_valid_independently']}"
+    if ev in ("trynew", "payctor", "tryadd", "amtdecode", "apply", "encamt"):
+        return f"balance / amount arithmetic deviates from Ledger.tla: {json.dumps(e)[:500]}"
     if ev == "pedersen":
         bad = [p for p in e["perturbed"] if p["verdict"] or p["verdict"] != p["recomputed_eq"]]
         return (f"Pedersen commitment ({e['group']}, N={e['N']}, {e['params']}, m={e['m']}, r={e['r']}): element equals independent h^r*prod g_i^m_i: {e['elem_eq_independent']}, "
